@@ -6,6 +6,7 @@ compares `Ty.descr flowRowTy` with the descriptor re-extracted from /repo on eve
 Core Lean only.
 -/
 import Rpft.Schema
+import Rpft.Canon
 namespace Rpft.Row
 open Rpft
 
@@ -129,8 +130,10 @@ def Val.descrFields : List (Str × Val) → Str
   | (k, x) :: y :: r => k ++ '=' :: Val.descr x ++ ',' :: Val.descrFields (y :: r)
 end
 
+/-- remap pairs, SORTED by key: a remap table is a lookup (unique keys), its order in the source
+carries no meaning — the T1 translator reads it off the behaviour of the remap function -/
 def descrPairs (ps : List (Str × Str)) : Str :=
-  sepJoin [','] (ps.map fun (a, b) => a ++ '>' :: b)
+  sepJoin [','] ((Canon.sortP ps).map fun (a, b) => a ++ '>' :: b)
 
 mutual
 def Ty.descr : Ty → Str
